@@ -29,6 +29,9 @@ def r07_1_index_tuple(ctx):
     kinds = {"B": ("bool",), "U": ("uint", 64), "b": ("byte",), "S": ("string",), "A": ("sarr", ("byte",), 3), "T": ("tuple", (("bool",), ("uint", 16)))}
     maxlen = 4 if ctx.tier == "quick" else 5
     seqs = ["".join(p) for L in range(1, maxlen + 1) for p in itertools.product("BUSb" if L > 3 else "BUbSAT", repeat=L)]
+    # everything that can stand between a dynamic member and the next one (whose head position ends the member)
+    seqs += ["S" + "".join(p) + "S" for L in range(2, 5) for p in itertools.product("BbU", repeat=L)] + ["S" + "B" * 7 + "bBS", "S" + "B" * 8 + "bBS", "SB" + "b" + "B" * 9 + "S"]
+    seqs = list(dict.fromkeys(seqs))
     seqs += ["B" * 9, "B" * 17 + "U", "UB" + "B" * 9 + "S", "SBBBBBBBBBS", "BBSSS", "UBBBUBS", "SUSUS", "B" * 8 + "SB"]
     BoolCls = Sym("class:Bool", attrs={"classname": "Bool"})
     for sq in seqs:
@@ -201,14 +204,112 @@ def r07_3_array_element(ctx):
     ctx.require_min("R07.3", 9)
 
 
+# ------------------------------------------------------------------------------------------ byte slices
+from sa.lowerworld import World, term_run  # noqa: E402
+from sa.minieval import StackError  # noqa: E402
+from spec import avm  # noqa: E402
+
+
+def _atom(t):
+    if isinstance(t, tuple) and t[0] == "int":
+        return t[1][0]
+    return t
+
+
+def _plus(a, b):
+    if isinstance(a, int) and isinstance(b, int):
+        return a + b
+    return ("+", a, b)
+
+
+def slice_of(t):
+    """(base, lo, hi) denoted by a byte-slicing term per the AVM reference: extract s l (l = 0: to the end),
+    extract3 A B C = A[B, B+C) (no special case), substring s e / substring3 A B C = A[B, C)"""
+    if not (isinstance(t, tuple) and len(t) == 3 and isinstance(t[1], tuple)):
+        return None
+    op, a, _ = t
+    if op == "extract" and len(a) == 3:
+        base, s, l = a
+        return (base, s, "LEN") if l == 0 else (base, s, s + l)
+    if op == "extract3" and len(a) == 3:
+        return (a[0], _atom(a[1]), _plus(_atom(a[1]), _atom(a[2])))
+    if op in ("substring", "substring3") and len(a) == 3:
+        hi = a[2]
+        if isinstance(hi, tuple) and hi[0] == "len" and hi[1] == (a[0],):
+            hi = "LEN"
+        return (a[0], _atom(a[1]), _atom(hi))
+    return None
+
+
+def r07_4_slices(ctx):
+    ctx.rule("R07.4", "Substring / Extract / Suffix lower, for every program version and for constant operands on both sides of the one-byte immediate limit as well as for computed operands, to an op chain that denotes the documented byte range [start, end) / [start, start+length) / [start, len) under the AVM meaning of extract, extract3, substring and substring3")
+    W = World(ctx.model)
+    consts = [0, 1, 255, 256, 70000]
+    versions = range(2, avm.MAX_AVM_VERSION + 1) if ctx.tier != "quick" else (2, 4, 5, 6, 10)
+    classes = {"SubstringExpr": ("endArg", 2), "ExtractExpr": ("lenArg", 5), "SuffixExpr": (None, 5)}
+    for cname, (third, minv) in classes.items():
+        c = ctx.model.find_class(cname, "pyteal.ast.substring")
+        ctx.analysed(c.fq + ".__teal__")
+        seconds = [("expr", None)] + [(f"Int({k})", k) for k in consts]
+        thirds = [("expr", None)] + [(f"Int({k})", k) for k in consts] if third else [(None, None)]
+        for version in versions:
+            for (sn, sv), (tn, tv) in itertools.product(seconds, thirds):
+                s = W.child("S", "bytes")
+                a = W.child("A", "uint64") if sv is None else W.int_literal(sv)
+                attrs = {"stringArg": s, "startArg": a}
+                if third:
+                    attrs[third] = W.child("B", "uint64") if tv is None else W.int_literal(tv)
+                A = "A" if sv is None else sv
+                B = "B" if tv is None else tv
+                if cname == "SubstringExpr":
+                    want = ("S", A, B)
+                    invalid = isinstance(A, int) and isinstance(B, int) and B < A
+                elif cname == "ExtractExpr":
+                    want = ("S", A, _plus(A, B))
+                    invalid = False
+                else:
+                    want = ("S", A, "LEN")
+                    invalid = False
+                construct = f"{cname}[v{version},{sn}" + (f",{tn}]" if third else "]")
+                try:
+                    val, me, f = W.run_teal(cname, attrs, W.options(version), module="pyteal.ast.substring")
+                except Raised as r:
+                    if invalid:
+                        ctx.ok("R07.4", construct, "refused: end before start", c.where)
+                    elif version < minv or "version" in r.exc_text.lower():
+                        # refusing is always sound; it is required to succeed only from the documented minimum on
+                        ctx.check(version < minv, "R07.4", construct, f"refused at version {version} although the construct is documented from version {minv}: {r.exc_text[:60]}", c.where, fact={"refused": True})
+                    else:
+                        ctx.bad("R07.4", construct, f"raises {r.exc_text[:70]}", c.where)
+                    continue
+                if invalid:
+                    ctx.bad("R07.4", construct, "a constant end before the constant start is accepted", c.where)
+                    continue
+                try:
+                    ops = W.chain(val[0], val[1])
+                    stack, _as, tstack = term_run(W, ops, ["BASE"])
+                except (StackError, AnalysisError) as e:
+                    ctx.bad("R07.4", construct, f"op chain is ill-formed: {e}", c.where)
+                    continue
+                # ops newer than the program version are refused afterwards by the compiler's final sweep (R04.2); what
+                # is decided here is the byte range the chain denotes
+                got = slice_of(stack[-1]) if len(stack) == 2 else None
+                ctx.check(got == want, "R07.4", construct, f"denotes {got} (ops: {'; '.join(map(repr, ops))}); documented range is {want}", c.where, fact={"ops": [repr(o) for o in ops]})
+    ctx.require_min("R07.4", 300)
+
+
 def run(ctx):
     r07_1_index_tuple(ctx)
     r07_2_decoders(ctx)
     r07_3_array_element(ctx)
+    r07_4_slices(ctx)
     from rules import c06 as _c06, c04 as _c04
 
     _c06.r06_1_descriptors(ctx)  # static lengths / dynamic-ness the walkers rely on (shared with C06)
     _c04.r04_4_immediates(ctx)  # extract/substring immediate forms only for constants that fit one byte
+    from rules import c11 as _c11
+
+    _c11.r11_1_inventory(ctx, only_under="pyteal/ast/abi")  # addressing is a function of the type spec alone: no process-wide cache in the ABI layer
     return (
         "Abstract evaluation of _index_tuple on all short member-kind sequences (and long bool runs) against ARC-4 positions; decoder selection tables; array element addressing "
         "terms; per-path audit of out-of-range behaviour; immediate ranges of the extract/substring forms. Extraction on actual encoded bytes is not executed."
